@@ -664,6 +664,11 @@ func (e *EngineImpl) ExpiredIndexes(nilIndexMap *map[uint64]*meta2.IndexDuration
 				if e.containIdxid(res, idxId) {
 					continue
 				}
+				if _, loaded := pti.indexBuilder[idxId]; loaded {
+					// the index was created after the refresh that filled nilIndexMap (a write made a shard
+					// on it): the loop above has judged the builder, with the shards that hold it
+					continue
+				}
 				if e.nilShardIsExpired(info.DurationInfo.Duration, info.Ident.EndTime) {
 					index := meta2.IndexDescriptor{
 						IndexID:      info.Ident.IndexID,
